@@ -498,6 +498,10 @@ class Model(object):
         self.put(self.h, s, self.fresh(self.lib_static))
         return self.expect(())
 
+    def op_vec_ret_l(self, n, _b, _t):
+        # a function inside a namespace whose std::vector<long> copy needs a destructor of its own
+        return self.expect((n, sum(7 * i for i in range(n))))
+
     def op_vec_ret_d(self, n, _b, _t):
         return self.expect((n, int(sum(0.25 + i for i in range(n)) * 4)))
 
@@ -522,7 +526,7 @@ OPS_COMMON = ["item_default", "item_val", "item_delete", "item_value", "item_set
               "vec_sum", "vec_iota", "vec_inc", "vec_alloc", "vec_ret", "vec_str_count",
               "arr_new", "arr_lib", "arr_new_alloc", "cap_delete", "cap_scope",
               "arr_pat", "arr_sum", "char_grow", "ref_item", "vec_ret_d", "char_arr",
-              "str_ptr_in", "str_val_in", "char_ret_len", "char_ret_null", "vec_iota_d", "arr_fill_out"]
+              "str_ptr_in", "str_val_in", "char_ret_len", "char_ret_null", "vec_iota_d", "arr_fill_out", "vec_ret_l"]
 
 TEXTS = ["", " ", "a", "hello", "two words", "  lead", "trail  ", "exactly-twenty-chars", "x" * 40,
          "MiXeD 123 !?", "tab-less ~ text", "ends with blank "]
@@ -560,7 +564,7 @@ def gen_op(rng, model, enabled, uniq):
     if name in ("vec_sum", "arr_sum"):
         return [name, lengths(rng), rng.randrange(4)]  # second argument: kind of Python sequence
     if name in ("str_val", "str_owned", "char_ret", "vec_iota", "vec_inc", "vec_alloc", "vec_ret",
-                "arr_new_alloc", "cap_scope", "vec_ret_d"):
+                "arr_new_alloc", "cap_scope", "vec_ret_d", "vec_ret_l"):
         return [name, lengths(rng)]
     if name == "char_ret_null":
         return [name, rng.choice([-1, -1, 0, 3, 17])]
@@ -622,7 +626,7 @@ PY_ONLY = ["box_delete", "bad_vec_sum", "bad_arg", "nomem", "bad_arr_sum"] + ["l
 # char_inout: the Python wrapper hands the str object's own UTF-8 buffer to the library, which
 # upper-cases it in place and thereby corrupts interned strings of the interpreter (a C03 defect;
 # it would make later *values* wrong, so the op is not generated for Python)
-NOT_PY = ["copy_item", "vec_inc", "vec_str_count", "cap_delete", "cap_scope", "char_inout", "char_grow", "vec_ret_d", "vec_iota_d"]
+NOT_PY = ["copy_item", "vec_inc", "vec_str_count", "cap_delete", "cap_scope", "char_inout", "char_grow", "vec_ret_d", "vec_iota_d", "vec_ret_l"]
 
 
 C_ONLY = ["item_release", "box_release", "cstr_ref", "cstr_lib", "cstr_owned", "cstr_in", "cstr_out", "cstr_inout"]
